@@ -476,6 +476,38 @@ TARGETS = [
                "Utils._get_color_index": ("get_color_index", ["Str"], "Int", True)},
         alias={}, outputs={}, returns={}, ret_type="Str",
     ),
+    dict(
+        name="TextAsRtf", file="row.py", cls="TextContent", func="_as_rtf", raises=True,
+        doc="TextContent._as_rtf: one text rendered by `method` — \"paragraph\" `{\\pard` para text-format ` ` text\n"
+            "`}\\par}`, \"cell\" `\\pard` para text-format ` ` text `}\\cell`, \"plain\" text-format ` ` text `}`,\n"
+            "\"paragraph_format\" / \"cell_format\" (paragraph formatting around the RAW `self.text`), anything else\n"
+            "`ValueError`.  `self._convert_special_chars()` is evaluated first whatever the method is; it stays a\n"
+            "parameter (`convert_special_chars`: its result on this object, or the exception it raises).\n"
+            "`self._get_paragraph_formatting()` / `self._get_text_formatting()` are the translated\n"
+            "`Generated.Py.ParagraphFormatting.run` / `Generated.Py.TextFormatting.run` on the object's fields, with\n"
+            "their parameters handed on.",
+        records={}, classes=[_TEXT_CLASS],
+        fn_params=[("inch_to_twip", "Rat → Int"),
+                   ("text_justification_codes", "List Nat → Option (List Nat)"),
+                   ("text_justification_keys", "List (List Nat)"),
+                   ("point_to_halfpoint", "Rat → Int"), ("get_color_index", "List Nat → Except Exc Int"),
+                   ("format_codes", "List Nat → Option (List Nat)"), ("format_keys", "List (List Nat)"),
+                   ("convert_special_chars", "Except Exc (List Nat)")],
+        params=[(f, t) for f, t in _TEXT_FIELDS if f != "convert"] + [("method", "Str")],
+        skip_params=["self"],
+        env={"self." + f: (f, t) for f, t in _TEXT_FIELDS if f != "convert"},
+        calls={"self._convert_special_chars": ("convert_special_chars", [], "Str", True),
+               "self._get_paragraph_formatting": (
+                   "Generated.Py.ParagraphFormatting.run inch_to_twip text_justification_codes "
+                   "text_justification_keys hyphenation space_before space_after space indent_first indent_left "
+                   "indent_right justification", [], "Str", True),
+               "self._get_text_formatting": (
+                   "Generated.Py.TextFormatting.run point_to_halfpoint get_color_index format_codes format_keys "
+                   "size font color background_color format", [], "Str", True)},
+        imports=["Generated.PyParagraphFormatting", "Generated.PyTextFormatting"],
+        depends=["ParagraphFormatting", "TextFormatting"],
+        alias={}, outputs={}, returns={}, ret_type="Str",
+    ),
     _additional_rows("AdditionalRowsFlat", "List (Option Comp)", "a flat list `[header | None, …]`"),
     _additional_rows("AdditionalRowsNested", "List (List (Option Comp))",
                      "a nested list `[[header | None, …], …]` (one Python list per section)"),
